@@ -677,11 +677,10 @@ verdict_t check_case(const scase_t& c, ctx_t& ctx)
             const auto range_nondefault = applied.description.find("prox::miu0_range") != std::string::npos;
             if (!range_nondefault && !(min_miu < 1e-8))
             {
-                return ratio > 10.0 ? verdict_t::violation("C03/converged-not-optimal/" + c.solver,
-                                                           cat("f(x)-f*=", static_cast<double>(ref.gap), " bound=", static_cast<double>(bound),
-                                                               " |x-x*|=", static_cast<double>(ref.dist), " max|f| shown to the solver=",
-                                                               function.max_abs_value(), " min miu=", min_miu, "; ", info()))
-                                    : verdict_t::borderline("gap-above-bound");
+                return verdict_t::violation("C03/converged-not-optimal/" + c.solver,
+                                            cat("f(x)-f*=", static_cast<double>(ref.gap), " bound=", static_cast<double>(bound),
+                                                " |x-x*|=", static_cast<double>(ref.dist), " max|f| shown to the solver=",
+                                                function.max_abs_value(), " min miu=", min_miu, "; ", info()));
             }
             return verdict_t::known("C03/converged-not-optimal/far-trial-point-cancellation",
                                     cat("f(x)-f*=", static_cast<double>(ref.gap), " bound=", static_cast<double>(bound),
@@ -701,15 +700,13 @@ verdict_t check_case(const scase_t& c, ctx_t& ctx)
                                             fragile.failing, " of ", fragile.runs, " runs (worst gap/bound ", fragile.worst_ratio, "); ", info()));
             }
         }
-        if (ratio > 10.0)
+        // the bound is the property's own (it already carries a 2x / 10x allowance): no further band beyond the
+        // rounding of the reference gap itself
+        if (ratio > 1.0 + 1e-9)
         {
             return verdict_t::violation("C03/converged-not-optimal/" + c.solver,
                                         cat("f(x)-f*=", static_cast<double>(ref.gap), " bound=", static_cast<double>(bound),
                                             " |x-x*|=", static_cast<double>(ref.dist), "; ", info()));
-        }
-        if (ratio > 1.0)
-        {
-            return verdict_t::borderline("gap-above-bound");
         }
     }
     else if (ellipsoid && c.n <= 6 && c.max_evals == 20000)
